@@ -195,10 +195,24 @@ def corpus_faults():
             yield {'k': 'corpus', 't': t, 'line': i, 'new': '%s\t%s' % (m.group(1), m.group(2))}
 
 
+def builtin_functions():
+    src = open(os.path.join(corpus.build.REPO, 'function.c')).read()
+    return sorted(set(re.findall(r'^\s*\{\s*"([A-Z0-9_]+)",\s*\d', src, re.M))) + ['SYMTYPE', 'DEFINED', 'ASSUMEDVAL', 'nosuchfunction']
+
+
 def nest_cases():
     for kind in ('rept', 'irp', 'irpc', 'irpn', 'macro', 'struct', 'section', 'if', 'include', 'paren', 'save', 'phase', 'pushv'):
         for depth in (1, 2, 17, 100, 300):
             yield {'k': 'nest', 'kind': kind, 'depth': depth}
+    for depth in (1000, 5000, 100000):
+        yield {'k': 'nest', 'kind': 'paren', 'depth': depth}
+    # user-defined functions referring to themselves / to each other, and every built-in function with 0..5 arguments
+    for body in ('f(x)', 'f(x)+1', '1+f(x-1)', 'g(x)', 'f(f(x))', 'x*f(x)'):
+        yield {'k': 'nest', 'kind': 'funcrec', 'depth': 0, 'body': body}
+    for fn in builtin_functions():
+        for ar in range(0, 6):
+            for a in ('1', '"s"', '1.5'):
+                yield {'k': 'nest', 'kind': 'funcargs', 'depth': ar, 'fn': fn, 'arg': a}
     for cnt in ('-1', '0', '1', '2147483648', '1.5', '"s"'):
         for kw in ('rept', 'irpn', 'while'):
             yield {'k': 'count', 'kw': kw, 'cnt': cnt}
@@ -249,7 +263,10 @@ def site_of(run_fn):
     return 'plain-only-' + str(ck)
 
 
-def finish(run_fn, first, okset, desc, group):
+BIG = ('65536', '2147483648')
+
+
+def finish(run_fn, first, okset, desc, group, big_ok=True):
     o = first
     ck = core.crashkind(o)
     if ck == 'HANG':
@@ -260,7 +277,10 @@ def finish(run_fn, first, okset, desc, group):
         site = site_of(run_fn) if ck != 'HANG' else 'HANG'
         return core.R(False, ck, '%s/%s/%s' % (group, 'hang' if ck == 'HANG' else 'crash', site), '%s (%s) on %s' % (ck, site, desc), transitions=2)
     if o.rc is None:
-        o = o._replace(rc=-1)   # output hit the file-size cap: work proportional to the described image, not a violation
+        # output hit the file-size cap: work proportional to the described image is not a violation - but only an input that
+        # names a large count or address can describe that much work; otherwise the output is a runaway loop
+        if not big_ok:
+            return core.R(False, 'runaway-output', '%s/runaway-output' % group, 'output grows beyond %d bytes although the input names no large count, on %s' % (FSIZE_CAP, desc), transitions=2)
         return core.R(True, 'fsize-cap', nontrivial=False)
     if o.rc not in okset:
         last = [l for l in (o.err + o.out).decode('latin-1').strip().split('\n') if l.strip()][-1:] or ['']
@@ -281,7 +301,7 @@ def evaluate(case):
             core.put('a.asm', src)
             return core.run('asl', ['-q', 'a.asm'], variant=v, timeout=to)
         o = run('plain')
-        r = finish(run, o, ASL_OK, describe(case), 'asl/raw')
+        r = finish(run, o, ASL_OK, describe(case), 'asl/raw', big_ok=False)
         return r or core.R(True, 'rc%s' % o.rc, nontrivial=o.rc != 0, states=['raw%d' % o.rc])
     if k == 'stmt':
         op = case['op']
@@ -297,7 +317,7 @@ def evaluate(case):
             core.put('s', 'x equ 1\n')
             return core.run('asl', ['-q', 'a.asm'], variant=v, timeout=to)
         o = run(case['v'])
-        r = finish(run, o, ASL_OK, describe(case), 'asl/%s' % op)
+        r = finish(run, o, ASL_OK, describe(case), 'asl/%s' % op, big_ok=any(a in BIG for a in case['args']))
         return r or core.R(True, 'rc%s' % o.rc, nontrivial=o.rc != 0, states=['%s/%d' % (op, o.rc)])
     if k == 'corpus':
         t = case['t']
@@ -313,7 +333,7 @@ def evaluate(case):
             open(p, 'wb').write('\n'.join(lines).encode('latin-1'))
             return core.run('asl', corpus.flags(t) + ['-q', '-i', corpus.incdir(), t + '.asm'], variant=v, cwd=d, timeout=to, maxout=1 << 16)
         o = run('asan')
-        r = finish(run, o, ASL_OK, '%s line %d := %r' % (t, case['line'] + 1, case['new']), 'asl/operand')
+        r = finish(run, o, ASL_OK, '%s line %d := %r' % (t, case['line'] + 1, case['new']), 'asl/operand', big_ok=any(b in case['new'] for b in BIG))
         return r or core.R(True, 'rc%s' % o.rc, nontrivial=o.rc != 0, states=['%s/%d' % (t, o.rc)])
     if k in ('nest', 'count', 'ctx'):
         src, opt = nest_src(case)
@@ -324,7 +344,8 @@ def evaluate(case):
             core.put('self.inc', '\tinclude "self.inc"\n')
             return core.run('asl', ['-q'] + opt + ['a.asm'], variant=v, timeout=to, maxout=1 << 16)
         o = run('asan')
-        r = finish(run, o, ASL_OK, 'nesting %s' % {x: case[x] for x in case if x != 'k'}, 'asl/nest/' + case.get('kind', case.get('kw', 'ctx')))
+        r = finish(run, o, ASL_OK, 'nesting %s' % {x: case[x] for x in case if x != 'k'}, 'asl/nest/' + case.get('kind', case.get('kw', 'ctx')),
+                   big_ok=(k == 'count' and case['cnt'] in BIG))
         return r or core.R(True, 'rc%s' % o.rc, nontrivial=True, states=['n%d' % o.rc])
     if k == 'file':
         seed = seeds()[case['seed']]
@@ -414,7 +435,11 @@ def nest_src(case):
     elif kind == 'include':
         L += ['\tinclude "self.inc"']
     elif kind == 'paren':
-        L += ['\tdb ' + '(' * n + '1' + ')' * n, '\tdb ' + '-' * n + '1', '\tdb ' + '+'.join(['1'] * n)]
+        L += ['\tdb ' + '(' * n + '1' + ')' * n, '\tdb ' + '-' * n + '1', '\tdb ' + '+'.join(['1'] * min(n, 5000)), '\tdb ' + 'abs(' * n + '1' + ')' * n]
+    elif kind == 'funcrec':
+        L += ['f\tfunction x,' + case['body'], 'g\tfunction x,f(x)', '\tdb f(1)', '\tdb g(2)']
+    elif kind == 'funcargs':
+        L += ['\tdb %s(%s)' % (case['fn'].lower(), ','.join([case['arg']] * n))]
     elif kind == 'save':
         L += ['\tsave'] * n + ['\trestore'] * (n + 1)
     elif kind == 'phase':
